@@ -18,7 +18,7 @@ ASSUMPTIONS = [
     "with-metadata listings are parsed back for hash names that Meta has a field for (md5, md5-dos2unix, etag, checksum); other names cannot be represented in that form",
 ]
 MONITORS = "projection of every entry compared before/after each persistent form"
-REQUIRED_COUNTERS = ["large_indexes", "same_key_histories", "sqlite_lazy_roundtrips", "json_roundtrips", "db_roundtrips", "sqlite_roundtrips", "dict_roundtrips", "tree_list_roundtrips", "sqlite_root_key_cases", "falsy_field_entries"]
+REQUIRED_COUNTERS = ["sqlite_rollbacks", "large_indexes", "same_key_histories", "sqlite_lazy_roundtrips", "json_roundtrips", "db_roundtrips", "sqlite_roundtrips", "dict_roundtrips", "tree_list_roundtrips", "sqlite_root_key_cases", "falsy_field_entries"]
 
 
 def mproj(m):
@@ -207,10 +207,19 @@ def run_shard(ctx):
                         before[k] = proj(e)
                         res.count("same_key_histories")
                 idx.commit()
-                if rng.random() < 0.5:
+                rolled = False
+                if rng.random() < 0.3 and before:
+                    # further writes that are rolled back: the live index and the persisted one both show the committed state
+                    for k, e in order[:3]:
+                        if k in before and k != ():
+                            idx[k] = DataIndexEntry(key=k, meta=Meta(size=424242), hash_info=HashInfo("md5", "f" * 32))
+                    idx.rollback()
+                    rolled = True
+                    res.count("sqlite_rollbacks")
+                if rolled or rng.random() < 0.5:
                     same = {k: proj(e) for k, e in idx.iteritems()}
                     if same != before:
-                        res.violation("sqlite/read-before-close-differs", "index differs from what was set, before close", case=case,
+                        res.violation("sqlite/read-before-close-differs" + ("/after-rollback" if rolled else ""), "index differs from what was set and committed, before close", case=case,
                                       detail={"n": len(before)})
                 idx.close()
                 back = DataIndex.open(p)
